@@ -1,6 +1,6 @@
 CONSTANTS
   NDocs = 24
-  NOperators = 29
+  NOperators = 35
   MaxSite = 5
 INIT Init
 NEXT Next
